@@ -1,3 +1,5 @@
+// extract-C17: the two tables of interp/build.go (keys whose value is the literal `true`) and the
+// fingerprints of the functions Model/Build.lean transcribes.
 package main
 
 import (
@@ -6,17 +8,18 @@ import (
 	"go/token"
 	"sort"
 	"strconv"
+
+	"verif/extract/common"
 )
 
-// C17: the two tables of interp/build.go (keys whose value is the literal `true`).
-func init() {
-	register("C17", false, func(repo string) (string, error) {
-		fset, f, err := parseFile(repo, "interp/build.go")
+func main() {
+	common.Main("C17", func(repo string) (string, error) {
+		fset, f, err := common.ParseFile(repo, "interp/build.go")
 		if err != nil {
 			return "", err
 		}
 		keys := func(name string) []string {
-			cl, ok := findVar(f, name).(*ast.CompositeLit)
+			cl, ok := common.FindVar(f, name).(*ast.CompositeLit)
 			if !ok {
 				return []string{"unrecognised: " + name + " is not a map literal"}
 			}
@@ -50,8 +53,8 @@ def known : Known :=
 def sourceHashes : List (String × String) :=
   %s
 end YaegiVerif.Generated.C17
-`, leanStrList(keys("knownOs")), leanStrList(keys("knownArch")),
-			hashTable(fset, f, [][2]string{{"Interpreter", "buildOk"}, {"", "buildLineOk"}, {"", "buildOptionOk"},
+`, common.LeanStrList(keys("knownOs")), common.LeanStrList(keys("knownArch")),
+			common.HashTable(fset, f, [][2]string{{"Interpreter", "buildOk"}, {"", "buildLineOk"}, {"", "buildOptionOk"},
 				{"", "buildTagOk"}, {"", "goMinorVersion"}, {"", "contains"}, {"", "skipFile"}})), nil
 	})
 }
